@@ -3,6 +3,11 @@ import OmplModel.Proofs.DubinsReal
 import OmplModel.Proofs.DubinsInteg
 import OmplModel.Proofs.DubinsWords
 import OmplModel.Proofs.DubinsReach
+import OmplModel.Proofs.RSBack
+import OmplModel.Proofs.RSFive
+import OmplModel.Proofs.RSFiveAll
+import OmplModel.Proofs.RSReach
+import OmplModel.Props.C14RS
 /-!
 # C14 — Dubins curves: the reported path is a shortest candidate, reaches the goal, and `interpolate` drives it
 
@@ -482,5 +487,100 @@ theorem exhaustive_isSome (m2p : ℝ → ℝ) (d α β : ℝ) : ∃ P, exhaustiv
   cases hr : exhaustiveCore m2p d α β with
   | some P => exact ⟨P, rfl⟩
   | none => rw [hr] at h; cases h
+
+/-! ## Reeds–Shepp: the "backwards" transform (round 2; the other Reeds–Shepp theorems are in `Props/C14RS.lean`) -/
+
+open OmplModel.RS in
+/-- [EX] **Integration commutes with rigid motions of the start pose** (driving a word is right-multiplication
+in SE(2)): moving the start pose by `(a, b, g)` moves the whole driven curve by `(a, b, g)`. -/
+theorem rs_integration_equivariant (W : List (RSeg × ℝ)) (a b g : ℝ) (P : Pose ℝ) :
+    rsIntegFull W (move a b g P) = move a b g (rsIntegFull W P) := rsIntegFull_move W a b g P
+
+open OmplModel.RS in
+/-- [EX] **The reversed word with negated lengths undoes the word** (from any start pose). -/
+theorem rs_reverse_negated_retraces (W : List (RSeg × ℝ)) (P : Pose ℝ) :
+    rsIntegFull (negAll W.reverse) (rsIntegFull W P) = P := rs_retrace W P
+
+open OmplModel.RS in
+/-- [EX] **The reversed word** (same signed lengths, opposite order), driven from the origin, ends at
+`(xb cos φ + yb sin φ, xb sin φ − yb cos φ, φ)` when the word itself ends at `(xb, yb, φ)`. -/
+theorem rs_reverse_reaches (W : List (RSeg × ℝ)) (xb yb ph : ℝ)
+    (h : rsIntegFull W origin = ⟨xb, yb, ph⟩) :
+    rsIntegFull W.reverse origin =
+      ⟨xb * Real.cos ph + yb * Real.sin ph, xb * Real.sin ph - yb * Real.cos ph, ph⟩ :=
+  OmplModel.RS.rs_reverse_reaches W xb yb ph h
+
+open OmplModel.RS in
+/-- [EX] **The code's backwards transform is sound**: `CCC` and `CCSC` solve for
+`(xb, yb) = (x cos φ + y sin φ, x sin φ − y cos φ)` and store the word in reversed order; if the solved word
+reaches `(xb, yb)` with heading `φ` (mod 2π), the stored reversed word reaches `(x, y)` with that heading. -/
+theorem rs_backwards (W : List (RSeg × ℝ)) (x y ph ph' : ℝ) (k : ℤ) (hk : ph' = ph + k * (2 * Real.pi))
+    (h : rsIntegFull W origin = ⟨x * Real.cos ph + y * Real.sin ph, x * Real.sin ph - y * Real.cos ph, ph'⟩) :
+    rsIntegFull W.reverse origin = ⟨x, y, ph'⟩ :=
+  OmplModel.RS.rs_backwards W x y ph ph' k hk h
+
+-- non-vacuity: a reversing straight segment followed by a left arc; its reverse is a different word
+open OmplModel.RS in
+example : ([(RSeg.S, (-1 : ℝ)), (RSeg.L, 2)] : List (RSeg × ℝ)).reverse = [(RSeg.L, 2), (RSeg.S, -1)] := rfl
+open OmplModel.RS in
+example : rsIntegFull [(RSeg.S, (-1 : ℝ))] origin = ⟨-1, 0, 0⟩ := by
+  show (⟨0 + -1 * Real.cos 0, 0 + -1 * Real.sin 0, 0⟩ : Pose ℝ) = _
+  simp
+
+open OmplModel.RS in
+/-- [EX] **The five-segment family reaches the goal** (formula 8.11, `LpRmSLmRp`, the C|C S C|C words with two
+quarter turns that win for sideways shifts): the word `L_t R_{-π/2} S_u L_{-π/2} R_v` (type 16) the solver
+returns, driven from the origin by the model's own signed integration, ends at `(x, y)` with heading
+`φ + 2πk` — the three `assert`s of `LpRmSLmRp`, exactly. -/
+theorem rs_LpRmSLmRp_reaches (x y phi t u v : ℝ) (h : LpRmSLmRp x y phi = some (t, u, v)) :
+    (rsIntegFull (bCCSCC 16 false t u v).segList origin).x = x ∧
+    (rsIntegFull (bCCSCC 16 false t u v).segList origin).y = y ∧
+    ∃ k : ℤ, (rsIntegFull (bCCSCC 16 false t u v).segList origin).th = phi + k * (2 * Real.pi) :=
+  OmplModel.RS.rs_LpRmSLmRp_reaches x y phi t u v h
+
+-- the premise is satisfiable: two reversing quarter turns reach (-2, -2) with unchanged heading
+open OmplModel.RS in
+example : LpRmSLmRp (-2 : ℝ) (-2) 0 = some (0, 0, 0) := LpRmSLmRp_example
+
+open OmplModel.RS in
+/-- [EX] **Every candidate of the five-segment family reaches the goal**: all of `candsCCSCC x y φ` — the
+base word of formula 8.11, its timeflip (solver on `(-x, y, -φ)`, all five lengths negated, quarter turns
+`+π/2`), its reflection (type 17) and both — driven from the origin, end at `(x, y)` with heading `φ`
+modulo 2π.  (A wrong quarter-turn sign under timeflip, mutant A of the notes, would falsify this.) -/
+theorem rs_CCSCC_candidates_reach (x y phi L : ℝ) (Q : RSPath ℝ) (h : some (L, Q) ∈ candsCCSCC x y phi) :
+    Reaches Q x y phi := CCSCC_candidates_reach x y phi L Q h
+
+-- the candidate list is non-empty for the concrete goal above
+open OmplModel.RS in
+example : ∃ L Q, some (L, Q) ∈ candsCCSCC (-2 : ℝ) (-2) 0 := by
+  refine ⟨key3 0 0 0, bCCSCC 16 false 0 0 0, ?_⟩
+  unfold candsCCSCC four
+  rw [LpRmSLmRp_example]
+  exact List.mem_cons_self
+
+open OmplModel.RS in
+/-- [EX] **The path `reedsShepp(x, y, φ)` returns reaches the goal**, for every family except CCCC: if the
+returned word is not of type 2 or 3 (the four-arc words of formulas 8.7 / 8.8, whose `tauOmega` identities
+are not proved), then driven from the origin it ends at `(x, y)` with heading `φ` modulo 2π.  This covers
+CSC, CCC, CCSC (with their timeflip / reflect / backwards images) and the five-segment CCSCC family.
+
+Full statement (not proved, hence `_partial`): the same without the hypothesis on the type. -/
+theorem rs_reedsShepp_reaches_except_CCCC_partial (x y phi : ℝ) (P : RSPath ℝ)
+    (hP : reedsShepp x y phi = some P) (hty : P.ty ≠ 2 ∧ P.ty ≠ 3) : Reaches P x y phi := by
+  obtain ⟨L, hm⟩ := (reedsShepp_inv x y phi).1 P hP
+  unfold allCands at hm
+  simp only [List.mem_append] at hm
+  rcases hm with (((h | h) | h) | h) | h
+  · exact CSC_candidates_reach x y phi L P h
+  · exact CCC_all_candidates_reach x y phi L P h
+  · rcases candsCCCC_ty h with h2 | h2
+    · exact absurd h2 hty.1
+    · exact absurd h2 hty.2
+  · exact CCSC_all_candidates_reach x y phi L P h
+  · exact CCSCC_candidates_reach x y phi L P h
+
+-- non-vacuity: a returned path of a type other than 2, 3 exists (the straight line to (3, 0))
+open OmplModel.RS in
+example : ∃ P : RSPath ℝ, reedsShepp (3 : ℝ) 0 0 = some P := reedsShepp_3_0_0
 
 end OmplModel.Props.C14
